@@ -16,7 +16,7 @@ from checks.c20 import clean_flags
 
 
 def gen(ctx: common.Ctx, n: int) -> Iterator[dict[str, Any]]:
-    cases = [c for c in corpus.load(["check-*.test"]) if not corpus.uses_fixture_only_features(c) and not c.cmd]
+    cases = [c for c in corpus.load(["check-*.test"]) if not corpus.uses_fixture_only_features(c) and not c.cmd and not corpus.has_config_files(c)]
     import random
     rng = random.Random("C13-core-order")   # core workload is seed-independent
     rng.shuffle(cases)
@@ -40,7 +40,7 @@ def gen(ctx: common.Ctx, n: int) -> Iterator[dict[str, Any]]:
         yield {"fn": "vlib.tasks.suppress:suppress",
                "args": {"files": files, "flags": flags, "target": "main.py", "key": ["C13", "core", c.id, k],
                         "n_transforms": 3 if ctx.tier == "quick" else 6},
-               "_case": f"{c.id}#{k}", "_ops": ops}
+               "_case": f"{c.id}:{common.fingerprint(files)[:8]}", "_ops": ops}
     # exploration slice (VERIF_SEED-dependent): generated typed programs made ill-typed by one or two perturbations
     from vlib import typedgen
     for j in range(max(20, n // 10)):
